@@ -1076,3 +1076,45 @@ Proof.
   eapply Forall_impl; [|exact Ha]. intros a (burst & s & Hb & Hs & Hp).
   eapply send_data_is_slice; eassumption.
 Qed.
+
+(** * The timer drives recovery (C04's mechanism, the "if" direction of [burst_causes])
+
+    Once the timeout has elapsed since the last transmission, a receive that brings no progress - a
+    failed attempt inside the retry budget, or an acknowledgement outside the window - is followed by
+    the whole window again: every block of it, in order, [rep] times each, and the timer restarts. *)
+Lemma inner_top_fires_gen : forall cfg F st, s_fails cfg = [] -> SCore cfg F st -> s_tmo cfg <= s_since st ->
+  s_inner_top cfg st =
+    (mk_sstate (s_bn st) (s_w st) (s_filled st) (s_retry st) 0 (s_nsent st + s_rep cfg * lenN (w_elems (s_w st)))
+               (s_phase st) (s_abs st),
+     window_tx (N.to_nat (s_rep cfg)) (s_abs st) (w_elems (s_w st))).
+Proof.
+  intros cfg F st Hsf Hc Ht. unfold s_inner_top. destruct (N.leb_spec (s_tmo cfg) (s_since st)); [|lia].
+  destruct Hc as (_ & _ & _ & _ & Hbn & _). rewrite Hsf, Hbn, send_window_nofail. reflexivity.
+Qed.
+
+Theorem timer_drives_recovery : forall cfg F st e st' out, wf_params (s_blk cfg) (s_ws cfg) -> s_fails cfg = [] ->
+  SInv cfg F st -> s_phase st = SInWindow -> send_step cfg st e = (st', out) ->
+  s_tmo cfg <= s_since st + ev_delay e ->
+  ((is_failed_attempt (receive max_request_packet_size e) /\ s_retry st + 1 <> max_retries) \/
+   (exists r, receive max_request_packet_size e = RPacket (Ack r) /\ ~ (wsub16 r (s_bn st) < lenN (w_elems (s_w st))))) ->
+  out = window_tx (N.to_nat (s_rep cfg)) (s_abs st) (w_elems (s_w st)) /\ w_elems (s_w st) <> [] /\
+  s_since st' = 0 /\ s_phase st' = SInWindow /\ s_w st' = s_w st /\ s_abs st' = s_abs st.
+Proof.
+  intros cfg F st e st' out Hwf Hsf Hi Hp E Ht Hcase.
+  pose proof Hi as [Hc [_ Hne]]. specialize (Hne Hp).
+  destruct Hcase as [[Hf Hr]|(r & Hr & Hout)].
+  - rewrite step_failed_attempt in E by assumption.
+    destruct (N.eqb_spec (s_retry st + 1) max_retries) as [Heq|_]; [contradiction|].
+    rewrite (inner_top_fires_gen cfg F) in E.
+    + inversion E; subst. cbn [s_since s_phase s_w s_abs]. repeat split; auto.
+    + exact Hsf.
+    + eapply SCore_ext; [..|exact Hc]; try reflexivity. cbn [s_retry].
+      destruct Hc as (_ & _ & _ & _ & _ & _ & _ & _ & _ & L). pose proof max_retries_pos. lia.
+    + cbn [s_since]. lia.
+  - rewrite (step_ack_out cfg F st e r Hwf Hi Hp Hr Hout) in E.
+    rewrite (inner_top_fires_gen cfg F) in E.
+    + inversion E; subst. cbn [with_since s_since s_phase s_w s_abs]. repeat split; auto.
+    + exact Hsf.
+    + apply with_since_inv with (d := ev_delay e) in Hi. exact (proj1 Hi).
+    + cbn [with_since s_since]. lia.
+Qed.
